@@ -37,9 +37,31 @@ def dedupe(jobs):
             seen.add(k); out.append(j)
     return out
 
-def generic(prop, tier, jobs, note, sample_every=25, level='model_checking', extra_cov=None, deepen=True):
+RACE_FAMILIES = ('mu', 'cv', 'muwait', 'note', 'counter', 'waitn', 'once', 'refcnt')
+def race_pass(jobs, tier):
+    """The serialising scheduler interrupts threads only at atomic operations, futex calls and yields, so two plain
+    accesses that race between such points are invisible to it (the interleaving that separates them is never
+    produced).  As for any scheduler of this kind, unsynchronised accesses are therefore caught separately: the same
+    programs are run once more, stateless, with the vector-clock happens-before monitor of C03 (P <= 1: the monitor
+    judges ordering, not timing, so it does not need the racy interleaving itself).  A data race among nsync's own
+    fields is reported as a violation of the property being checked."""
+    out, seen = [], set()
+    for j in jobs:
+        if j.cfg != 'c-futex' or j.tag or j.family not in RACE_FAMILIES or '--strict' in j.flags or '--hb' in j.flags: continue
+        k = (j.family, j.program)
+        if k in seen: continue
+        seen.add(k)
+        two = j.program.count('|') == 1
+        # stateless runs grow fast: every single preemption for two-thread programs, the default schedule (every thread
+        # runs until it blocks) for larger ones -- the monitor compares vector clocks, so a race between two accesses is
+        # reported from any schedule that executes both, however far apart
+        out.append(Job('c-futex', j.family, j.program, min(j.P, 1) if two else 0, min(j.E, 1) if two else 0, tuple(j.flags) + ('--hb', '--hb-scope=cut'), j.defs, None, 'race pass'))
+    return out
+
+def generic(prop, tier, jobs, note, sample_every=25, level='model_checking', extra_cov=None, deepen=True, race=True):
     t0 = time.time()
     jobs = dedupe(jobs)
+    if race: jobs = jobs + race_pass(jobs, tier)
     # a single program may not hold the tier hostage: it is capped (and reported as capped) after this long
     res, skipped = mcdriver.run_jobs(jobs, wall(tier), per_job_cap_s=(100 if tier == 'quick' else 600), sample_every=sample_every)
     rounds = None
@@ -66,7 +88,19 @@ def run_C01(tier):
         B = [Job('c-binsem', j.family, j.program, j.P, j.E, j.flags) for j in J[::2]]
     else:
         B = [Job('c-binsem', j.family, j.program, j.P, j.E, j.flags) for j in J]
-    return generic('C01', tier, J + B,
+    # the long-wait escalation changes the acquisition test of the woken thread (seeded change C01e): writer / reader
+    # victims among readers and writers with LONG_WAIT_THRESHOLD reduced, and the scripted strategies at the real one
+    S = []
+    for T in ([1] if q else [1, 2]):
+        defs = '-DNSYNC_VERIF_LONG_WAIT_THRESHOLD=%d' % T
+        k = T + 2
+        for p in ['V|R%d|L%d' % (k, k), 'V|R%d|R%d' % (k, k), 'Vr|L%d|R%d' % (k, k), 'V|T%d|R%d' % (k, k)]:
+            S.append(Job('c-futex', 'starve', p, 2, 0, (), defs, 'c-futex.t%d' % T))
+            S.append(Job('c-binsem', 'starve', p, 2, 0, (), defs, 'c-binsem.t%d' % T))
+    for p in ['wR:fixed', 'wR:alt', 'rL:fixed', 'wL:fixed']:
+        for cfg in ('c-futex', 'c-binsem'):
+            S.append(Job(cfg, 'adversary', p, 1, 0, ('--strict',)))
+    return generic('C01', tier, J + B + S,
         'DFS over scheduler / clock choices of the real mu.c, mu_wait.c, cv.c, wait.c; oracle: shadow occupancy (harness level at every acquire/return-from-wait, and at nsync\'s own AnnotateRWLockAcquired points) asserted at every entry')
 
 # ---------------------------------------------------------------- C02
@@ -100,6 +134,7 @@ def jobs_mu(tier):
 def run_C02(tier):
     t0 = time.time()
     J = jobs_mu(tier)
+    J = J + race_pass(J, tier)
     res, skipped = mcdriver.run_jobs(J, wall(tier), per_job_cap_s=(100 if tier == 'quick' else 600), sample_every=40)
     rounds = None
     if tier == 'thorough' and not skipped:
@@ -263,7 +298,8 @@ def run_C16(tier):
     for kind in 'mc':
         for k in range(4):
             J.append(Job('c-futex', 'debugseq', '%s%d' % (kind, k), 1 if q else 2, 0))
-    return generic('C16', tier, J, 'DFS over schedules of lockers / waiters / wakers with a thread calling the debug-state functions (all mutual-exclusion, progress and wake-up oracles in force); exhaustive n = 0..80 x 0..3 queued waiters x 4 functions against the untruncated reference with exact-size buffers between red zones', sample_every=4)
+    return generic('C16', tier, J, 'DFS over schedules of lockers / waiters / wakers with a thread calling the debug-state functions (all mutual-exclusion, progress and wake-up oracles in force); exhaustive n = 0..80 x 0..3 queued waiters x 4 functions against the untruncated reference with exact-size buffers between red zones', sample_every=4,
+        race=False)   # the debug-state functions read the waiter lists without the spinlock when the word shows no waiters: a race nsync annotates as intended (IGNORE_RACES); what it may lead to is judged by the other oracles
 
 TABLE = {
     'C15': seqchecks.run_C15, 'C17': seqchecks.run_C17, 'C18': seqchecks.run_C18,
